@@ -726,17 +726,72 @@ def run(ctx):
             ctx.violation(R, f.short, "validate-call",
                           "no call of self.validate() under `%s`" % guard)
     # the structural validators refuse virtual (undefined) lines
-    for name in ("__validate_segment_references", "__validate_path_links",
-                 "__validate_group_items"):
-        ctx.instance(R)
+    # (interpreted: a Gfa whose lines are all defined passes, one with an
+    # undefined segment / link / group item raises NotFoundError, wherever
+    # the undefined line stands)
+    S2c = repo.cls("line.segment.GFA2")
+    Lkc = repo.cls("line.edge.Link")
+    Pc = repo.cls("line.group.Path")
+    Uc = repo.cls("line.group.Unordered")
+    Oc = repo.cls("line.group.Ordered")
+    OLc = repo.cls("OrientedLine")
+
+    class VirtHooks(LineHooks):
+        def method(self, ev, base, name, args, kwargs, node):
+            if isinstance(base, Abs) and name in ("refstr", "to_str"):
+                return "<%s>" % name
+            return super().method(ev, base, name, args, kwargs, node)
+
+        def to_str(self, ev, v):
+            return "<%s>" % v.label
+
+    def ln(cls, label, virtual):
+        return Abs(cls, label=label, name=label, virtual=virtual,
+                   _virtual=virtual)
+
+    def scenario(name, where):
+        # where: None (all defined) or the position of the undefined line
+        def v(i):
+            return where == i
+        if name == "__validate_segment_references":
+            return Abs(gfacls, label="gfa", segments=[
+                ln(S2c, "s%d" % i, v(i)) for i in range(3)])
+        if name == "__validate_path_links":
+            paths = [Abs(Pc, label="p%d" % j, links=[
+                Abs(OLc, label="ol", orient="+", line=ln(
+                    Lkc, "l%d" % (2 * j + k), v(2 * j + k)))
+                for k in range(2)]) for j in range(2)]
+            return Abs(gfacls, label="gfa", _gfa1_paths=paths)
+        sets = [Abs(Uc, label="u", items=[ln(S2c, "i0", v(0)),
+                                          ln(S2c, "i1", v(1))])]
+        pths = [Abs(Oc, label="o", items=[
+            Abs(OLc, label="ol", orient="+", line=ln(S2c, "i2", v(2))),
+            Abs(OLc, label="ol", orient="-", line=ln(S2c, "i3", v(3)))])]
+        return Abs(gfacls, label="gfa", version="gfa2", _version="gfa2",
+                   sets=sets, paths=pths)
+    for name, npos in (("__validate_segment_references", 3),
+                       ("__validate_path_links", 4),
+                       ("__validate_group_items", 4)):
         f = ctx.anchor("Gfa.%s" % name, gfacls.find_method(name))
-        ok = any(isinstance(n, ast.If) and "virtual" in unparse(n.test) and
-                 any(isinstance(b, ast.Raise) for b in n.body)
-                 for n in ast.walk(f.node))
-        ctx.oblige(ok)
-        if not ok:
-            ctx.violation(R, f.short, "virtual-check",
-                          "does not raise for a virtual (undefined) line")
+        for where in [None] + list(range(npos)):
+            ctx.instance(R)
+            try:
+                out = eval_function(repo, f, [scenario(name, where)],
+                                    hooks=VirtHooks(repo))
+            except Unsupported as e:
+                raise AnalysisError(str(e))
+            if where is None:
+                ok = out[0] in ("return", "fall")
+            else:
+                ok = out[0] == "raise" and \
+                    str(out[1]).endswith("NotFoundError")
+            ctx.oblige(ok)
+            if not ok:
+                ctx.violation(R, f.short, "virtual-check,undefined=%s" % (
+                    "none" if where is None else "line %d" % where),
+                    "outcome %r; an undefined (virtual) line must be "
+                    "refused with NotFoundError, a complete graph accepted"
+                    % (out[0:2],))
     ctx.exhaustive[R] = True
     ctx.notes["alphabet"] = "ASCII 0..127 + one class for all non-ASCII"
     ctx.assume("the reference grammars of spec.GRAMMAR transcribe the GFA1, "
